@@ -68,6 +68,8 @@ type Step struct {
 	// Names for stop-many; Procs for update.
 	Names []string   `json:"names,omitempty"`
 	Procs []ProcSpec `json:"procs,omitempty"`
+	// Top: project-level YAML of the updated configuration (empty: the scenario's).
+	Top string `json:"top,omitempty"`
 }
 
 func (s Step) String() string {
